@@ -72,6 +72,19 @@ def constructed(rng):
         for k in range(39):
             out += all_ops(P10[k], s)
             out += all_ops(-P10[k], s)
+    # integer part at floor(T / 10^s) +- 2 for the maxima T of the primitive types, fraction part all nines / all zeros /
+    # one / a half (reciprocal tables, narrow fast paths and "marker digit" tricks live here), and the thresholds
+    # themselves at every scale
+    for v, k in G.type_scaled_thresholds():
+        if v < 0:
+            continue
+        for frac in (P10[k] - 1, 0, 1, P10[k] // 2, P10[k] - 2):
+            c = v * P10[k] + frac
+            if c <= M:
+                out += all_ops(c, k)
+                out += all_ops(-c, k)
+        for s in range(19):
+            out += all_ops(v if rng.random() < 0.5 else -v, s)
     return out
 
 
